@@ -1,8 +1,13 @@
 package c10
 
 import (
+	"fmt"
 	"regexp"
+	"sort"
 	"strings"
+
+	"github.com/dolthub/go-mysql-server/sql"
+	_ "github.com/dolthub/go-mysql-server/sql/variables"
 
 	"github.com/dolthub/go-mysql-server/vh/internal/kf"
 	"github.com/dolthub/go-mysql-server/vh/internal/stats"
@@ -32,6 +37,22 @@ type finding struct {
 
 func re(s string) *regexp.Regexp { return regexp.MustCompile("(?is)" + s) }
 
+// enumSysVarRegion matches references to the system variables of enum type (the region of
+// C10-system-enum-to-string); the list is read from the engine.
+func enumSysVarRegion() *regexp.Regexp {
+	var names []string
+	for name := range sql.SystemVariables.GetAllGlobalVariables() {
+		if sv, _, ok := sql.SystemVariables.GetGlobal(name); ok && strings.Contains(fmt.Sprintf("%T", sv.GetType()), "Enum") {
+			names = append(names, regexp.QuoteMeta(name))
+		}
+	}
+	sort.Strings(names)
+	if len(names) == 0 {
+		return re(`@@`)
+	}
+	return re(`@@[\w.]*(` + strings.Join(names, "|") + `)\b`)
+}
+
 const noEncoderCharsets = `armscii8|cp1250|cp1251|cp1256|cp1257|cp850|cp852|cp866|cp932|dec8|eucjpms|euckr|gb18030|gb2312|gbk|geostd8|greek|hebrew|hp8|keybcs2|koi8r|koi8u|latin2|latin5|latin7|macce|macroman|sjis|swe7|tis620|ucs2|ujis|big5`
 
 var findings = []finding{
@@ -47,7 +68,7 @@ var findings = []finding{
 		region:  re(`\busing\s+(latin1|ascii|utf16|utf16le|utf32|ucs2|utf8mb3|utf8)\b`),
 		witness: []string{"SELECT HEX(CONVERT('añb' USING latin1))"}},
 	{id: "C10-in-list-out-of-range-index", frames: []string{"transform.Expr"},
-		region:  re(`\bin\s*\(`),
+		region:  re(`\b(ti|one_pk|two_pk|w)\b.*\bin\s*\(|\bin\s*\(.*\b(ti|one_pk|two_pk|w)\b`),
 		witness: []string{"SELECT * FROM ti WHERE b IN (-129, 300)"}},
 	{id: "C10-persist-global", frames: []string{"memory.(*Session).PersistGlobal"}, region: re(`\bpersist`),
 		witness: []string{"SET PERSIST max_connections = 10"}},
@@ -78,13 +99,13 @@ var findings = []finding{
 		witness: []string{"SELECT COUNT(*) FROM information_schema.column_statistics"}},
 	{id: "C10-collate-system-variable", frames: []string{"expression.(*CollatedExpression).Eval"}, region: re(`@@[\w.]+\s+collate`),
 		witness: []string{"SELECT @@global.version COLLATE ascii_general_ci"}},
-	{id: "C10-system-enum-to-string", frames: []string{"expression.(*EnumToString).Eval"}, region: re(`@@`),
+	{id: "C10-system-enum-to-string", frames: []string{"expression.(*EnumToString).Eval"}, region: enumSysVarRegion(),
 		witness: []string{"SELECT CAST(@@session.tx_isolation AS CHAR)"}},
 	{id: "C10-show-variables-where", frames: []string{"rowexec.(*BaseBuilder).buildShowVariables"}, region: re(`\bshow\b.*\b(variables|status)\b.*\bwhere\b`),
 		witness: []string{"SHOW VARIABLES WHERE @b"}},
 	{id: "C10-interval-placeholder", frames: []string{"expression.(*Interval).Eval"}, region: re(`\binterval\b`),
 		witness: []string{"SELECT INTERVAL 1 DAY"}},
-	{id: "C10-fulltext-drop-pk-column", frames: []string{"fulltext.GetKeyColumns"}, region: re(`\balter\b.*\bdrop\b`),
+	{id: "C10-fulltext-drop-pk-column", frames: []string{"fulltext.GetKeyColumns"}, region: re("\\balter\\b.*\\bdrop\\s+(column\\s+)?`?(i|i2|pk|pk1|pk2|x|u|a|id)`?(\\W|$)"),
 		witness: []string{"ALTER TABLE mytable DROP i"}},
 	{id: "C10-insert-ignore-binary", frames: []string{"rowexec.convertDataAndWarn"}, region: re(`\bignore\b`),
 		witness: []string{"INSERT IGNORE INTO othertable VALUES (CAST('abcdefghijklmnopqrstuvwxyz' AS BINARY), 9)"}},
@@ -101,7 +122,7 @@ var findings = []finding{
 		witness: []string{"SET @v1 = ANY_VALUE(AVG('SECOND'))"}},
 	{id: "C10-external-procedure-arg-count", frames: []string{"planbuilder.resolveExternalStoredProcedure"}, region: re(`\bcall\s+memory_`),
 		witness: []string{"CALL memory_error_table_not_found(1)"}},
-	{id: "C10-charset-not-implemented", frames: []string{"types.MustCreateString"}, region: re(`\b(names|charset|character\s+set|character_set_\w+|collation_\w+)\b`),
+	{id: "C10-charset-not-implemented", frames: []string{"types.MustCreateString"}, region: re(`^\W*set\b.*\b(names|charset|character\s+set|character_set_\w+|collation_\w+)\b`),
 		witness: []string{"SET NAMES koi8r", "SELECT 'a'"}},
 	// ---- the tables stay consistent for a fresh session ---------------------------------------
 	{id: "C10-empty-column-name", region: re("\\b(alter|create)\\b.*``"),
